@@ -157,6 +157,16 @@ func newRunner(tierName string, verbose bool) (*runner, error) {
 	if err := writeOverlayJSON(r.ovJSON, ov); err != nil {
 		return nil, err
 	}
+	// parse traces of the harness query families, from the real parser of the
+	// current tree (native helper, rebuilt on every run)
+	gen, err := runAstgen(wd, r.ovJSON)
+	if err != nil {
+		return nil, err
+	}
+	ov[filepath.Join(repoDir, "ast", "zz_verif_traces_gen.go")] = gen
+	if err := writeOverlayJSON(r.ovJSON, ov); err != nil {
+		return nil, err
+	}
 	// the engine itself does not need the _test registry files
 	engOv := map[string]string{}
 	for k, v := range ov {
@@ -564,4 +574,22 @@ func cmdExec(args []string) int {
 		fmt.Printf("violation: %s %s %s\n", v.Kind, v.Label, v.Msg)
 	}
 	return 0
+}
+
+func runAstgen(workDir, ovJSON string) (string, error) {
+	bin := filepath.Join(workDir, "astgen")
+	env := append(os.Environ(), "GOFLAGS=-mod=mod", "GOPROXY=off", "GOSUMDB=off", "GOTOOLCHAIN=local")
+	cmd := exec.Command("go", "build", "-tags", "verif", "-overlay", ovJSON, "-o", bin, "./astgen")
+	cmd.Dir = filepath.Join(verifDir, "gen")
+	cmd.Env = env
+	if b, err := cmd.CombinedOutput(); err != nil {
+		return "", fmt.Errorf("building astgen against /repo failed (does the working tree compile?): %v\n%s", err, b)
+	}
+	out := filepath.Join(workDir, "traces_gen.go")
+	run := exec.Command(bin, out)
+	run.Env = env
+	if b, err := run.CombinedOutput(); err != nil {
+		return "", fmt.Errorf("astgen failed: %v\n%s", err, b)
+	}
+	return out, nil
 }
